@@ -199,6 +199,13 @@ def families(tier):
     for i, lit in enumerate(odd):
         for j, tpl in enumerate(["%s", "x eq %s", "%s eq x", "f.g(%s)", "x in (%s, 1)", "a/any(v: v eq %s)", "year(%s) eq 1", "not (%s ne x)"]):
             add("odd-literal-%d-%d" % (i, j), tpl % lit)
+    # valid filters with members that are not plain literals (a parser that hashes, sorts or compares AST nodes meets
+    # unhashable lists and very deep operands here)
+    for j, f in enumerate(["x in ((1, 2), (3, 4))", "name in (concat(first, 'x'), 'y')", "d in (now(), 2020-01-01T00:00:00Z)",
+                           "x in (%s, 2)" % " add ".join(["1"] * 3000), "x in (a/b/c, tolower(s), (1,), f.g(k=(1, 2)))",
+                           "hassubset(((1, 2), (3,)), ((1, 2),))", "f.g(a=(1, (2, 3)), b=now())", "x in (x, x, x)",
+                           "concat((1, 2), (1, 2)) eq (1, 2, 1, 2)", "a/b/c gt 1 and a/b/c lt 5 and a/b/c ne a/b/c"]):
+        add("valid-nesting-%d" % j, f)
     for n in (3, 50, 400, 1500):
         add("path-%d" % n, "/".join(["seg"] * n) + " eq 1")
         add("path-any-%d" % n, "/".join(["seg"] * n) + "/any()")
